@@ -107,6 +107,20 @@ Theorem C15_overstep_same_great_circle_as_last_leg :
 Proof. exact overstep_same_curve. Qed.
 Print Assumptions C15_overstep_same_great_circle_as_last_leg.
 
+(* the waypoint-crossing refusal is not a clause of the property; what the code does is characterised:
+   sound (only when a waypoint lies strictly inside the step) but not complete (never for a step that starts
+   exactly on a waypoint, e.g. from 0, however many waypoints it passes) — and in that case the answer is still
+   the location of a + b, which is what the property asks of an answered step *)
+Theorem C15_cross_refusal_only_when_a_waypoint_is_strictly_inside :
+  forall (g : track RNum) (a b : R), @step RNum g a b = Refuse RCross -> exists k, a < @idx RNum g k < a + b.
+Proof. exact step_cross_sound. Qed.
+Print Assumptions C15_cross_refusal_only_when_a_waypoint_is_strictly_inside.
+
+Theorem C15_step_from_the_start_is_never_cross_refused :
+  forall (g : track RNum) (b : R), 0 <= b <= @total RNum g -> @step RNum g 0 b = @location RNum g (0 + b).
+Proof. exact step_from_start_is_location. Qed.
+Print Assumptions C15_step_from_the_start_is_never_cross_refused.
+
 (* azimuths reported in [0, 360): pyproj reports [-180, 180] *)
 Theorem C15_azimuth_in_0_360 :
   forall a : R, -360 <= a < 360 ->
